@@ -96,6 +96,11 @@ func (withdrawTx) Validate(ctx *action.Context, tx action.SignedTx) (bool, error
 		return false, action.ErrStakeAddressMismatch
 	}
 
+	// the amount counts whole OLT and is converted through an int64, it must fit
+	if !draw.Stake.Value.BigInt().IsInt64() {
+		return false, errors.Wrap(action.ErrInvalidAmount, draw.Stake.String())
+	}
+
 	coin := draw.Stake.ToCoinWithBase(ctx.Currencies)
 	if coin.LessThanEqualCoin(coin.Currency.NewCoinFromInt(0)) {
 		return false, action.ErrInvalidAmount
